@@ -1,7 +1,7 @@
 """C08 — Coq theorems over coq/Model/Pool.v (lists regenerated from the source) + simulation of the real executor code with monitors."""
 from checks import simcommon as S
 
-FAMILIES = ['plain', 'timeout', 'resize', 'saturate', 'satreuse']
+FAMILIES = ['plain', 'timeout', 'resize', 'saturate', 'satreuse', 'leakexit']
 PER_FAMILY = (300, 6000)
 
 
